@@ -1,4 +1,89 @@
-(** C09 — property theorems (statements only; proofs by [exact]). *)
+(** C09 — property theorems (statements only; proofs by [exact]).
+
+    Writer model: Model.v ([BUF] = Writer::BUF_SIZE, [dbg] = cfg!(debug_assertions));
+    renderings, well-formed scripts, canonical decimal, the pure reader: Spec.v.
+    The capacity hypothesis [39 <= BUF] is what integers need (a u128 has up to
+    39 digits and is copied as one piece; a longer piece than the buffer would
+    panic, [c09_oversized_piece_panics]); strings and single pieces are covered
+    for every capacity >= 1 ([c09_string_any_capacity], [c09_piece_any_capacity]).
+    The real crate has BUF_SIZE = 65536. *)
 From Coq Require Import ZArith List Bool.
-From RlibV Require Import C09.Model.
+From RlibV Require Import C09.Model C09.Spec C09.Proofs.
+Import ListNotations.
 Open Scope Z_scope.
+
+(** after any script: nothing lost, duplicated or reordered — what the sink has received
+    followed by what is still buffered is the concatenation of all renderings, in call
+    order; the buffer never overflows; no operation panics; both build flavours *)
+Theorem c09_invariant : forall (BUF : Z) (dbg : bool) (ops : list op),
+  39 <= BUF -> Forall wf_op ops ->
+  exists s tr, exec BUF dbg ops init [] = Some (s, tr)
+               /\ sink s ++ pending s = rendering ops /\ zlen (pending s) <= BUF.
+Proof. exact invariant_final. Qed.
+
+(** after a flush, and after the drop, the sink holds exactly that concatenation and nothing
+    is pending; [run] (new .. drop) also reports the sink sizes seen at the explicit flushes:
+    at each of them everything written before had arrived *)
+Theorem c09_flush_delivers : forall (BUF : Z) (dbg : bool) (ops : list op),
+  39 <= BUF -> Forall wf_op ops ->
+  exists s tr, exec BUF dbg ops init [] = Some (s, tr)
+     /\ sink (flush s) = rendering ops /\ pending (flush s) = []
+     /\ sink (drop s) = rendering ops
+     /\ run BUF dbg ops = Some (rendering ops, flush_points ops 0).
+Proof. exact flush_delivers_final. Qed.
+
+(** one piece that fits the buffer, any capacity, any fill level *)
+Theorem c09_piece_any_capacity : forall (BUF : Z) (b : list byte) (s : state),
+  1 <= BUF -> zlen b <= BUF -> zlen (pending s) <= BUF ->
+  exists s', write_bytes BUF b s = Some s'
+             /\ sink s' ++ pending s' = (sink s ++ pending s) ++ b /\ zlen (pending s') <= BUF.
+Proof. exact piece_final. Qed.
+
+(** a piece longer than the buffer panics in copy_from_slice (unreachable through the public
+    API: strings are chunked, integers have at most 39 digits) *)
+Theorem c09_oversized_piece_panics : forall (BUF : Z) (b : list byte) (s : state),
+  BUF < zlen b -> write_bytes BUF b s = None.
+Proof. exact write_bytes_too_long. Qed.
+
+(** strings of any length through a buffer of any capacity >= 1: chunking loses nothing *)
+Theorem c09_string_any_capacity : forall (BUF : Z) (dbg : bool) (b : list byte) (s : state),
+  1 <= BUF -> zlen (pending s) <= BUF ->
+  exists s', write BUF dbg (VStr b) s = Some s'
+             /\ sink s' ++ pending s' = (sink s ++ pending s) ++ b /\ zlen (pending s') <= BUF.
+Proof. exact string_final. Qed.
+
+(** unsigned integers: the rendering is the canonical decimal numeral, it fits the
+    BASE_10_LEN stack buffer, and the digit loop started at index BASE_10_LEN produces
+    it without the index ever going below zero *)
+Theorem c09_render_unsigned : forall (t : ity) (v : Z),
+  is_signed t = false -> in_range t v = true ->
+  canonical_decimal (sdec v) v
+  /\ exists L, BASE_10_LEN t = Some L /\ zlen (sdec v) <= L
+     /\ (v <> 0 -> digit_loop (Z.to_nat L) v [] = Some (sdec v)).
+Proof. exact render_unsigned. Qed.
+
+(** signed integers, MIN included: unsigned_abs is exact (no wrap), '-' exactly for
+    negatives, at most BASE_10_LEN digits after it *)
+Theorem c09_render_signed : forall (t : ity) (v : Z),
+  is_signed t = true -> in_range t v = true ->
+  canonical_decimal (sdec v) v
+  /\ unsigned_abs (bits t) v = Z.abs v
+  /\ exists L, BASE_10_LEN t = Some L /\ zlen (sdec v) <= L + 1
+     /\ (v <> 0 -> digit_loop (Z.to_nat L) (unsigned_abs (bits t) v) [] = Some (sdec (Z.abs v))).
+Proof. exact render_signed. Qed.
+
+(** BASE_10_LEN: the base_10_len! loop on the unsigned MAX terminates with the number of
+    decimal digits of MAX, for each of the six widths (both signednesses share it) *)
+Theorem c09_base10len : forall t : ity,
+  exists L, base_10_len (bits t) = Some L /\ BASE_10_LEN t = Some L
+            /\ 10 ^ (L - 1) <= 2 ^ bits t - 1 < 10 ^ L.
+Proof. exact base10len. Qed.
+
+(** write a vector of integers (any mix of the 12 types, any values in range), let the
+    writer go; a reader that splits at ASCII whitespace and accumulates digits the way
+    Reader does gets the integers back *)
+Theorem c09_round_trip : forall (BUF : Z) (dbg : bool) (vs : list (ity * Z)),
+  39 <= BUF -> Forall (fun p => in_range (fst p) (snd p) = true) vs ->
+  exists text, run BUF dbg [OWrite (VVec (int_values vs))] = Some (text, [])
+               /\ parse_ints text = Some (map snd vs).
+Proof. exact round_trip_final. Qed.
